@@ -84,6 +84,7 @@ Section Frame.
     | EZext w x => option_map (EZext w) (reloc_e x)
     | ESext w x => option_map (ESext w) (reloc_e x)
     | ECall f x => option_map (ECall f) (reloc_e x)
+    | EAdd x y => match reloc_e x, reloc_e y with Some x', Some y' => Some (EAdd x' y') | _, _ => None end
     end.
 
   Definition reloc_s (s : stmt) : option stmt :=
@@ -138,6 +139,8 @@ Section Frame.
     - destruct (reloc_e e) as [x'|]; [|discriminate]. inversion He. cbn [eval]. rewrite (IHe x' eq_refl). reflexivity.
     - destruct (reloc_e e) as [x'|]; [|discriminate]. inversion He. cbn [eval]. rewrite (IHe x' eq_refl). reflexivity.
     - destruct (reloc_e e) as [x'|]; [|discriminate]. inversion He. cbn [eval]. rewrite (IHe x' eq_refl). reflexivity.
+    - destruct (reloc_e e1) as [x'|]; [|discriminate]. destruct (reloc_e e2) as [y'|]; [|discriminate].
+      inversion He. cbn [eval]. rewrite (IHe1 x' eq_refl), (IHe2 y' eq_refl). reflexivity.
   Qed.
 
   Lemma store_window : forall m r' off n v, r' <> r ->
